@@ -482,6 +482,16 @@ fn collect_record_commands(c: &Client) -> Vec<Vec<Value>> {
 }
 
 fn pick_position(c: &Client, d: &Doc, rng: &mut Rng) -> (u32, u32) {
+    // now and then the cursor rests on a link, an address or a host name in the text
+    if rng.chance(1, 6) {
+        let src: Vec<char> = d.text.chars().collect();
+        let s: String = d.text.clone();
+        let hits: Vec<usize> = ["http", "www.", "@"].iter().flat_map(|n| s.match_indices(n).map(|(i, _)| s[..i].chars().count()).collect::<Vec<_>>()).collect();
+        if !hits.is_empty() {
+            let i = *rng.pick(&hits) + rng.below(3);
+            return super::reference::index_to_pos(&src, i.min(src.len()));
+        }
+    }
     if let Some(p) = c.last_publish(&d.uri) {
         if !p.diags.is_empty() && rng.chance(9, 10) {
             let g = rng.pick(&p.diags);
